@@ -14,6 +14,7 @@ import (
 	"github.com/bufbuild/verifharness/internal/reg"
 
 	_ "github.com/bufbuild/verifharness/internal/authmodel"
+	_ "github.com/bufbuild/verifharness/internal/breakmodel"
 	_ "github.com/bufbuild/verifharness/internal/cachemodel"
 	_ "github.com/bufbuild/verifharness/internal/climodel"
 	_ "github.com/bufbuild/verifharness/internal/configmodel"
